@@ -566,6 +566,33 @@ impl<F: Future> Future for CancelAfter<F> {
     }
 }
 
+/// Waits for `fut` with a generous bound that also lets remoc's real-time helper threads make progress: the first
+/// `fast` polls are back to back, after that every poll is preceded by a 100 microsecond sleep, for at most
+/// `slow_ms` milliseconds of real time.  `None` means: still pending after all that.
+pub async fn patient<F: Future>(fut: F, fast: u64, slow_ms: u64) -> Option<F::Output> {
+    let mut fut = Box::pin(fut);
+    let mut polls = 0u64;
+    let mut t0: Option<std::time::Instant> = None;
+    std::future::poll_fn(move |cx| {
+        polls += 1;
+        if polls > fast {
+            let start = *t0.get_or_insert_with(std::time::Instant::now);
+            if start.elapsed().as_millis() as u64 > slow_ms {
+                return Poll::Ready(None);
+            }
+            std::thread::sleep(std::time::Duration::from_micros(100));
+        }
+        match fut.as_mut().poll(cx) {
+            Poll::Ready(v) => Poll::Ready(Some(v)),
+            Poll::Pending => {
+                cx.waker().wake_by_ref();
+                Poll::Pending
+            }
+        }
+    })
+    .await
+}
+
 /// Yields `n` times (a task holding a guard / being slow).
 pub async fn yields(n: u64) {
     for _ in 0..n {
